@@ -913,7 +913,10 @@ func (x *Exec) evalSpecCall2(sc *specCtx, e *ast.CallExpr) Value {
 	case "ptr":
 		// ptr(T): pointer type for typeis
 		need(1)
-		tv := arg(0).(TypeV)
+		tv, ok := arg(0).(TypeV)
+		if !ok {
+			panic(engineErr("ptr(T) expects a type"))
+		}
 		return TypeV{types.NewPointer(tv.T)}
 	case "unbox":
 		// unbox(x, T): payload of interface x as T
